@@ -181,6 +181,9 @@ class FrameItem(EFLRItem):
         if np.isnan(diff).any():
             # undefined values in the index - a single difference of NaN must not be taken for a uniform spacing
             return None, None
+        if np.isinf(diff).any() and np.isfinite(index_data).all():
+            # differences beyond the range of 64-bit floats - infinity must not be taken for a uniform spacing either
+            return None, (True if (diff >= 0).all() else False if (diff <= 0).all() else None)
 
         diff_unique = np.unique(diff)
 
